@@ -11,7 +11,7 @@ for i in "$@"; do
   if [ ! -f $d/patch.diff ]; then echo "C$i-$letter: no patch yet"; continue; fi
   mkdir -p seeded/C$i-$letter; cp $d/patch.diff $d/demo.py $d/meta.json seeded/C$i-$letter/
   if ! git -C $scratch apply "$(readlink -f seeded/C$i-$letter/patch.diff)"; then echo "C$i-$letter: patch does not apply to HEAD"; continue; fi
-  out=$(VERIF_REPO=$scratch ./check C$i --tier quick 2>&1); rc=$?
+  out=$(VERIF_REPO=$scratch VERIF_EVIDENCE_DIR=/tmp/seedtest_evidence ./check C$i --tier quick 2>&1); rc=$?
   git -C $scratch checkout -q -- .
   echo "C$i-$letter rc=$rc $(echo "$out" | grep -c VIOLATION) viol | $(echo "$out" | tail -1)"
   echo "$out" | grep VIOLATION | head -2 | cut -c1-220
